@@ -17,6 +17,16 @@ USES_GEN = True
 WANT = ("C16",)
 
 
+from props import C12 as _LIM
+
+
+class StallPart(_LIM.LimPart):
+    """the limiter runs of C12 read for C16: only a reader that is never woken again (clause 4) or a panic (6)"""
+
+    def batch_oracle(self, cases, impl, res):
+        return [r if r.startswith("1") or r.split(";")[0].split(",")[1:2] in (["4"], ["6"]) else "1" for r in res]
+
+
 def parts(tier, rng):
     out = B.make_parts(tier, rng, WANT)
     # a busy endpoint: outbound requests outstanding (sink engines) while the peer sends acknowledgements of every
@@ -26,6 +36,13 @@ def parts(tier, rng):
         out.append(p)
     # packets arriving in one read (burst engines): nothing may panic
     out += B.burst_parts(tier, rng, WANT)
+    # "nor stops making progress": the in-flight limiter in front of every server connection must wake the paused
+    # reader when a completion brings the running calls back under the limits (a lost wake-up = the peer's later
+    # packets are never read); limiter engine, clauses 4 (not woken) and 6 (panic) of its oracle only
+    from props import C12 as LIM0
+    import gen_limiter as GL
+    for name, cases in GL.all_cases(rng, "quick" if tier == "quick" else "full"):
+        out.append(StallPart("limiter-" + name, "limiter", cases, shards=16, rule=name, vm_slice=100))
     # "nor stops making progress": a streamed PUBLISH must be flagged for the in-flight limiter whatever piece of
     # its payload came with the header, otherwise its chunks wait for the slot its own handler holds
     import gen_codec3 as G3
@@ -40,6 +57,8 @@ def parts(tier, rng):
 
 
 def replay_parts(rp):
+    if rp.get("engine") == "limiter":
+        return [StallPart("replay", "limiter", [rp["case"]], shards=1)]
     if rp.get("engine", "").startswith("sized"):
         from props import C12 as LIM
         return [LIM.SizedPart("replay", rp["engine"], [rp["case"]], shards=1)]
@@ -49,13 +68,13 @@ def replay_parts(rp):
 
 
 def known_signature(part, case, impl_obs, oracle):
-    if isinstance(part, SC.SinkPart) or part.engine.startswith("sized"):
+    if isinstance(part, SC.SinkPart) or part.engine.startswith("sized") or part.engine == "limiter":
         return None
     return B.known_signature(part, case, impl_obs, oracle)
 
 
 def clause_text(part, oracle):
-    if part.engine.startswith("sized"):
+    if part.engine.startswith("sized") or part.engine == "limiter":
         from props import C12 as LIM
         return LIM.clause_text(part, oracle)
     if isinstance(part, SC.SinkPart):
